@@ -130,16 +130,20 @@ def checkRound (P : Nat) (k : Nat) (compl : List Int) (lines : List String)
 /-! ### dedicated-master pattern (`Model/DispatcherDedicated.lean`) -/
 
 /-- Events a step of the dedicated-master model makes rank `r` emit (ranks = pool index + 1). -/
-def stepEventsD (s s' : Pomerol.Model.DispD.SysD) (r : Nat) : List Ev :=
-  let newLog := s'.log.drop s.log.length
-  let runs : List Ev := newLog.flatMap fun (j, w) => [Ev.run (w + 1) j, Ev.send (w + 1) 0 0 (-1)]
-  let newFin : List Ev := (List.range s.N).filterMap fun i =>
-    if !(s.m.fin.getD i false) && s'.m.fin.getD i false then some (Ev.send 0 (i + 1) 2 (-1)) else none
-  let newD := (s'.m.dmap.take (s'.m.dmap.length - s.m.dmap.length)).reverse
-  let orders : List Ev := newD.map fun (j, w) => Ev.send 0 (w + 1) 1 j
-  if r = 0 then newFin ++ orders else runs
+def poolRank (boss i : Nat) : Nat := if i < boss then i else i + 1
 
-def checkRoundD (P : Nat) (k : Nat) (jobs : List Nat) (lines : List String)
+def stepEventsD (boss : Nat) (s s' : Pomerol.Model.DispD.SysD) (master : Bool) : List Ev :=
+  let rk (i : Nat) : Int := Int.ofNat (poolRank boss i)
+  let b : Int := Int.ofNat boss
+  let newLog := s'.log.drop s.log.length
+  let runs : List Ev := newLog.flatMap fun (j, w) => [Ev.run (rk w) j, Ev.send (rk w) b 0 (-1)]
+  let newFin : List Ev := (List.range s.N).filterMap fun i =>
+    if !(s.m.fin.getD i false) && s'.m.fin.getD i false then some (Ev.send b (rk i) 2 (-1)) else none
+  let newD := (s'.m.dmap.take (s'.m.dmap.length - s.m.dmap.length)).reverse
+  let orders : List Ev := newD.map fun (j, w) => Ev.send b (rk w) 1 j
+  if master then newFin ++ orders else runs
+
+def checkRoundD (boss : Nat) (P : Nat) (k : Nat) (jobs : List Nat) (lines : List String)
     (maps : List (Nat × List (Nat × Nat))) (exits : List Nat) (tally : Driver.Tally) : IO Driver.Tally := do
   let mut tally := tally
   let mut implEv : Array (List Ev) := Array.replicate P []
@@ -164,9 +168,9 @@ def checkRoundD (P : Nat) (k : Nat) (jobs : List Nat) (lines : List String)
       IO.println s!"PROPFAIL round={k} (dedicated master) job {j} executed {cnt} times"; propOk := false
   if runs.any (fun x => !(jobs.contains x.1)) then
     IO.println s!"PROPFAIL round={k} (dedicated master) a job outside the round was executed"; propOk := false
-  if runs.any (fun x => x.2 == 0) then
+  if runs.any (fun x => x.2 == boss) then
     IO.println s!"PROPFAIL round={k} (dedicated master) the master, which is not in the worker pool, executed a job"; propOk := false
-  match maps.find? (·.1 == 0) with
+  match maps.find? (·.1 == boss) with
   | none => IO.println s!"PROPFAIL round={k} (dedicated master) the master did not leave its loop"; propOk := false
   | some (_, m) =>
     for j in jobs do
@@ -176,7 +180,7 @@ def checkRoundD (P : Nat) (k : Nat) (jobs : List Nat) (lines : List String)
         IO.println s!"PROPFAIL round={k} (dedicated master) map says job {j} -> {said}, executed by {who}"; propOk := false
     if m.length != jobs.length then
       IO.println s!"PROPFAIL round={k} (dedicated master) map has {m.length} entries for {jobs.length} jobs"; propOk := false
-  for r in (List.range P).drop 1 do
+  for r in (List.range P).filter (· != boss) do
     if !exits.contains r then
       IO.println s!"PROPFAIL round={k} (dedicated master) worker rank {r} did not leave its loop"; propOk := false
   if !propOk then tally := tally.pfail
@@ -184,16 +188,18 @@ def checkRoundD (P : Nat) (k : Nat) (jobs : List Nat) (lines : List String)
   let N := P - 1
   let mut s := Pomerol.Model.DispD.init N jobs
   let mut modEv : Array (List Ev) := Array.replicate P []
-  modEv := modEv.modify 0 (· ++ (s.m.dmap.reverse.map fun (j, w) => Ev.send 0 (w + 1) 1 j))
+  modEv := modEv.modify boss (· ++ (s.m.dmap.reverse.map fun (j, w) => Ev.send (Int.ofNat boss) (Int.ofNat (poolRank boss w)) 1 j))
   let mut idx := 0
   for (r, b) in tests do
     idx := idx + 1
-    match Pomerol.Model.DispD.step s r b with
+    -- model rank: 0 = master, i + 1 = worker with pool index i
+    let mr := if r == boss then 0 else (if r < boss then r else r - 1) + 1
+    match Pomerol.Model.DispD.step s mr b with
     | none =>
       IO.println s!"MISMATCH round={k} (dedicated master) test #{idx} (rank {r}, seen={b}) is not enabled in the model"
       return tally.mismatch
     | some s' =>
-      if r < P then modEv := modEv.modify r (· ++ stepEventsD s s' r)
+      if r < P then modEv := modEv.modify r (· ++ stepEventsD boss s s' (r == boss))
       s := s'
   for r in List.range P do
     if modEv[r]! != implEv[r]! then
@@ -202,10 +208,10 @@ def checkRoundD (P : Nat) (k : Nat) (jobs : List Nat) (lines : List String)
   if !Pomerol.Model.DispD.allExited s then
     IO.println s!"MISMATCH round={k} (dedicated master) implementation left its loops but the model has not (master exited: {s.m.exited}, workers: {repr s.ws})"
     return tally.mismatch
-  match maps.find? (·.1 == 0) with
+  match maps.find? (·.1 == boss) with
   | some (_, m) =>
     for j in jobs do
-      if (dmapGet s.m.dmap j).map (· + 1) != (m.find? (·.1 == j)).map (·.2) then
+      if (dmapGet s.m.dmap j).map (poolRank boss) != (m.find? (·.1 == j)).map (·.2) then
         IO.println s!"MISMATCH round={k} (dedicated master) DispatchMap differs from the model's at job {j}"
         return tally.mismatch
   | none => pure ()
@@ -224,11 +230,13 @@ def run (lines : Array String) : IO Unit := do
   let mut rounds : List (Nat × List Int × List String) := []
   let mut hang := false
   let mut dedicated := false
+  let mut boss := 0
   let mut exits : List (Nat × Nat) := []     -- (round, rank) of workers that left the dedicated-master loop
   for line in lines do
     match Driver.toks line with
     | ["P", p] => P := p.toNat!
     | ["mode", "nomaster"] => dedicated := true
+    | ["mode", "nomaster", b] => dedicated := true; boss := b.toNat!
     | ["x", r, k] => exits := exits ++ [(k.toNat!, r.toNat!)]
     | "round" :: k :: _ :: cs =>
       if let some (k0, c0) := cur then rounds := rounds ++ [(k0, c0, buf)]
@@ -246,7 +254,7 @@ def run (lines : Array String) : IO Unit := do
     for (k, c, ls) in rounds do
       let ms := (maps.filter (·.1 == k)).map fun (_, r, m) => (r, m)
       if dedicated then
-        tally ← checkRoundD P k (c.map (·.toNat)) ls ms ((exits.filter (·.1 == k)).map (·.2)) tally
+        tally ← checkRoundD boss P k (c.map (·.toNat)) ls ms ((exits.filter (·.1 == k)).map (·.2)) tally
       else
         tally ← checkRound P k c ls ms tally
   tally.report
